@@ -274,7 +274,11 @@ class DiffusionModel(GenericModel):
             Type of boundary condition on right side. Either BoundaryConditions.FLUX_BC or BoundaryConditions.COMPOSITION_BC
         RBCvalue : float
             Value of right boundary condition
+        element : str
+            Specified element, will use first element if None (as the composition setters do)
         '''
+        if element is None:
+            element = self.elements[self._getElementIndex(None)]
         self.boundaryConditions.setBoundaryCondition(BoundaryConditions.LEFT, 
                                                                 LBCtype, LBCValue, element)
         self.boundaryConditions.setBoundaryCondition(BoundaryConditions.RIGHT,
